@@ -1,6 +1,8 @@
 package sym
 
 import (
+	"unicode"
+	"unicode/utf8"
 	"fmt"
 	"go/types"
 	"strings"
@@ -63,6 +65,8 @@ func init() {
 		"crypto/aes.NewCipher":         inAesNewCipher,
 		"crypto/cipher.NewCTR":         inNewCTR,
 		"runtime.KeepAlive":            inNop,
+		"strings.ToLower":              inStringsToLower,
+		"strings.ToUpper":              inStringsToUpper,
 		"(*sync.Pool).Get":             inPoolGet,
 		"(*sync.Pool).Put":             inPoolPut,
 	}
@@ -1276,4 +1280,71 @@ func inPoolPut(ex *Exec, fn *ssa.Function, args []Value, site string) Value {
 	}
 	ex.pools[c] = append(ex.pools[c], args[1])
 	return Tuple{}
+}
+
+// ---------- strings.ToLower / ToUpper ----------
+// Exact for strings whose non-ASCII octets are concrete (decoded and mapped with the host's unicode tables, so the
+// result can be shorter or longer than the input exactly as in Go) and whose symbolic octets are ASCII on the current
+// path. A symbolic octet that may be >= 0x80 is unsupported (the path ends inconclusive): Unicode case mapping of
+// arbitrary symbolic text is outside what the engine models.
+func caseMap(ex *Exec, s Str, lower bool, site string) Value {
+	C := ex.C
+	var out []*T
+	for i := 0; i < len(s.B); {
+		b := s.B[i]
+		if v, ok := constOf(b); ok && v >= 0x80 {
+			j := i
+			var raw []byte
+			for j < len(s.B) {
+				w, ok := constOf(s.B[j])
+				if !ok || (j > i && w&0xC0 != 0x80) || len(raw) == 4 {
+					break
+				}
+				raw = append(raw, byte(w))
+				j++
+			}
+			r, size := utf8.DecodeRune(raw)
+			var enc []byte
+			if r == utf8.RuneError && size <= 1 {
+				enc = []byte("\uFFFD") // invalid UTF-8 is replaced, as strings.Map does
+				size = 1
+			} else if lower {
+				enc = []byte(string(unicode.ToLower(r)))
+			} else {
+				enc = []byte(string(unicode.ToUpper(r)))
+			}
+			for _, e := range enc {
+				out = append(out, C.Const(uint64(e), 8))
+			}
+			i += size
+			continue
+		}
+		if !b.IsConst() {
+			if ex.sat(C.Ule(C.Const(0x80, 8), b)) != smt.Unsat {
+				panic(unsupported("strings.ToLower/ToUpper on a symbolic octet that may be non-ASCII"))
+			}
+		}
+		lo, hi, d := uint64('A'), uint64('Z'), uint64(32)
+		if !lower {
+			lo, hi = 'a', 'z'
+		}
+		in := C.BAnd(C.Ule(C.Const(lo, 8), b), C.Ule(b, C.Const(hi, 8)))
+		var m *T
+		if lower {
+			m = C.Add(b, C.Const(d, 8))
+		} else {
+			m = C.Sub(b, C.Const(d, 8))
+		}
+		out = append(out, C.Ite(in, m, b))
+		i++
+	}
+	return Str{out}
+}
+
+func inStringsToLower(ex *Exec, fn *ssa.Function, args []Value, site string) Value {
+	return caseMap(ex, args[0].(Str), true, site)
+}
+
+func inStringsToUpper(ex *Exec, fn *ssa.Function, args []Value, site string) Value {
+	return caseMap(ex, args[0].(Str), false, site)
 }
